@@ -4,6 +4,7 @@
 package wazero
 
 import (
+	"context"
 	"io"
 	"io/fs"
 
@@ -218,3 +219,15 @@ func fcInv(c *fsConfig) bool {
 //@ func (c *fsConfig) preopens() ([]experimentalsys.FS, []string)
 //@   ensures[fresh] verif_fresh_slice(r0) && verif_fresh_slice(r1)
 //@   modifies nothing
+
+// Instantiating with a configuration does not change it: no store executed by InstantiateModule
+// itself (or by the callees that are under contract) targets a field of the caller's
+// configuration. Callees without a contract (store, engines) are assumed not to: they receive the
+// derived sys.Context, never the configuration object.
+//@ func (r *runtime) InstantiateModule(ctx context.Context, compiled CompiledModule, mConfig ModuleConfig) (mod api.Module, err error)
+//@   requires isModuleConfig(mConfig)
+//@   preserves obj(mConfig.(*moduleConfig))
+//@   nosafety
+//@   inline-depth 1
+
+func isModuleConfig(m ModuleConfig) bool { _, ok := m.(*moduleConfig); return ok }
